@@ -10,7 +10,7 @@ from build import BUILD, VERIF, HarnessError, Lock, file_hash, nm_undefined, par
 B_WRAP = ["malloc", "realloc", "free", "calloc", "fopen", "freopen", "exit", "abort", "__assert_fail",
           "getenv", "setlocale", "time", "clock_gettime", "rand", "random", "getpid",
           "atexit", "fileno", "read", "write", "isatty", "remove", "unlink", "rename", "open", "close", "lseek", "fstat", "stat",
-          "fdopen", "dup", "getcwd", "umask", "gettimeofday", "clock", "getuid", "getppid", "srand", "srandom", "sysconf"]
+          "fdopen", "dup", "_exit", "ftruncate", "getrlimit", "getcwd", "umask", "gettimeofday", "clock", "getuid", "getppid", "srand", "srandom", "sysconf"]
 B_PURE = {"fclose", "getc", "ungetc", "ferror", "fflush", "stdin", "fputc", "fputs", "fwrite", "printf", "putc", "putchar",
           "puts", "stdout", "fprintf", "vfprintf", "perror", "stderr", "memcmp", "memcpy", "memset", "memmove", "strchr",
           "strcmp", "strlen", "strpbrk", "strrchr", "strncmp", "strcpy", "strncpy", "strcat", "strstr", "strspn", "strcspn",
@@ -64,10 +64,12 @@ def build_simB(san=False):
         par(cmds)
         und = nm_undefined(objs)
         und = {s for s in und if not re.match(r"__(asan|ubsan|sanitizer|msan)", s)}
-        bad = sorted(s for s in und if s not in B_WRAP and s not in B_PURE)
+        bad = sorted(s for s in und if (s not in B_WRAP or (san and s in ("_exit", "getrlimit", "sysconf"))) and s not in B_PURE)
         if bad:
             raise HarnessError("symbol audit (simulator B): cproc-qbe imports %s, which the simulated C library does not model" % ", ".join(bad))
-        sh(cxx + ["-o", exe, os.path.join(top, "h_harness.o"), os.path.join(top, "h_main.o")] + objs + ["-Wl," + ",".join("--wrap=" + s for s in B_WRAP)], cwd=top)
+        # the sanitizer runtime is linked into the executable and calls these itself: leave them alone there
+        wrap = [s for s in B_WRAP if not (san and s in ("_exit", "getrlimit", "sysconf"))]
+        sh(cxx + ["-o", exe, os.path.join(top, "h_harness.o"), os.path.join(top, "h_main.o")] + objs + ["-Wl," + ",".join("--wrap=" + s for s in wrap)], cwd=top)
         prune("simBsan-" if san else "simB-", 3)
         return exe
 
